@@ -41,7 +41,7 @@ def _cfg():
 def raw_stress(r) -> str:
     """a simple command whose raw-text positions contain things the scanner must handle or refuse"""
     inner = r.pick(["rm x", "ls", "denied", "echo hi", "foo"])
-    body = "".join(r.pick(RAW_NOISE) for _ in range(r.randint(0, 3))) + "$(" + r.pick(["echo a", "ls", inner]) + "".join(r.pick(RAW_NOISE) for _ in range(r.randint(0, 2))) + "; " + inner + ")" + "".join(r.pick(RAW_NOISE) for _ in range(r.randint(0, 2)))
+    body = "".join(r.pick(RAW_NOISE) for _ in range(r.randint(0, 3))) + r.pick(["", "", "", "\\\\", "\\\\\\\\", "x\\\\"]) + "$(" + r.pick(["echo a", "ls", inner]) + "".join(r.pick(RAW_NOISE) for _ in range(r.randint(0, 2))) + "; " + inner + ")" + "".join(r.pick(RAW_NOISE) for _ in range(r.randint(0, 2)))
     k = r.random()
     if k < 0.35:
         return "echo ${x:-" + body + "}"
